@@ -466,6 +466,6 @@ func init() {
 		Level:       "other",
 		Explanation: "Structural necessary conditions of 'each waiter gets exactly one faithful final result': a message is done iff the final response exists and the loop returns after it; sends and waits happen with the lock released and every return re-holds it; one store site of the final response, storing the caller's value and waking all waiters; callers pass the worker's own response or a documented scheduler error; wake-up channels are closed before being replaced; waiter counting and the abandonment timer move together; worker reports are only applied under digest equality; the stage function's decision table. Exactly-once under all races is not decided.",
 		Assumptions: []string{"gRPC delivers what Send accepted"},
-		Rules:       []RuleFunc{c02Done, c02Single, c02Wake, schedWaiters, c02Stage, c01Identity, schedDrainLoops, schedParkedRecheck, schedStageWake, schedFailedByWorker, schedRearmTime, schedRevalidateAfterRelock},
+		Rules:       []RuleFunc{c02Done, c02Single, c02Wake, schedWaiters, c02Stage, c01Identity, schedDrainLoops, schedParkedRecheck, schedStageWake, schedFailedByWorker, schedRearmTime, schedRevalidateAfterRelock, schedStaleWorkerRemoval},
 	})
 }
